@@ -178,6 +178,7 @@ class World:
         self.ev = []
         self.ntx = 0                # USB transfers so far
         self.nsub = 0
+        self.ncfq = 0
         self.nrcv = 0               # non-null packets received
         self.next_outcome = None    # steps mode: outcome of the next transfer
         self.free = None            # free mode: dict(outcomes, cfq_at, gates, ...)
@@ -250,7 +251,7 @@ class World:
     def _free_after(self):
         fr = self.free
         if self.ntx >= len(fr['outcomes']) and self.senders_left == 0:
-            need = 2 * (fr['nup'] + fr['ndown']) + 6 + 2
+            need = fr['nup'] + fr['ndown'] + 4 + 2
             if self.tail_acked >= need:
                 self.gate_closed = True
         if self.ntx >= len(fr['outcomes']) + 2000:      # something is wedged: end the run (not quiet)
@@ -260,6 +261,7 @@ class World:
     def cf_queue(self, p):
         self.peer.queue(p)
         self.tail_acked = 0
+        self.ncfq += 1
         self.log({'e': 'cfq', 'p': list(p)})
 
     def parked_at(self):
@@ -649,7 +651,7 @@ class WordDirector:
             return ['sub', self.up.pop(0)]
         if self.drain is None or self.up:
             self.drain = 0
-        need = 2 * (len(self.did) * 0 + w.nsub + sum(1 for e in w.ev if e['e'] == 'cfq')) + 6 + 1
+        need = w.nsub + w.ncfq + 4 + 1
         if w.tail_acked < need and self.drain < need + 40:
             self.drain += 1
             return ['tx', 'A']
@@ -661,12 +663,12 @@ def word_scenarios(tier):
     k = 7 if tier == 'quick' else 10
     out = []
     for n in range(0, k + 1):
-        if n < k and tier == 'thorough' and n > 6:
-            continue        # shorter words are prefixes of longer ones followed by the all-A drain
         for word in itertools.product('AUL', repeat=n):
             if n < k and word and word[-1] == 'A':
                 continue    # word + drain == longer word + drain: covered by the length-k words
-            for pat, retries in (('eager', 3), ('late', 2), ('mid', 4)):
+            for pat, retries in (('eager', 12), ('late', 12), ('mid', 3)):
+                if pat == 'mid' and n > (6 if tier == 'quick' else 8):
+                    continue
                 out.append({'mode': 'sl', 'tail': [1, 44], 'deny': DENY_REPLIES[0], 'retries': retries,
                             'gen': ['word', 'A', ''.join(word), pat, 3, 3]})
     return out
@@ -683,7 +685,7 @@ def startup_scenarios(tier, rng):
             words = rng.sample(words, 64)
         for wd in words:
             neg = ''.join(wd) + ('A' if j < NEGATT else '')
-            out.append({'mode': 'sl', 'tail': [1, 44] if j % 2 else [], 'deny': DENY_REPLIES[0], 'retries': 2 + j % 3,
+            out.append({'mode': 'sl', 'tail': [1, 44] if j % 2 else [], 'deny': DENY_REPLIES[0], 'retries': 4 + j % 3,
                         'gen': ['word', neg, tails[j % 3], ('eager', 'late', 'mid')[len(out) % 3], 2, 2]})
     for mode in ('nosl', 'deny'):
         for d in (DENY_REPLIES if mode == 'deny' else DENY_REPLIES[:1]):
@@ -703,18 +705,27 @@ def random_scenarios(tier, rng):
         length = rng.randint(200, 600 if tier == 'quick' else 2000)
         style = i % 4
         retries = [100, 5, 3, 20][style]
+        fail_ok = style == 2 or i % 8 == 7      # runs in which a link failure may happen
         pl = [0.05, 0.3, 0.5, 0.15][style] * rng.random() * 2
         outcomes = []
         negn = rng.choice([0, 0, 1, 3, 9])
         outcomes += [rng.choice('UL') for _ in range(negn)] + ['A']
+        nneg = len(outcomes)
         while len(outcomes) < length:
             r = rng.random()
-            if r < 0.01:      # burst (link error territory)
+            if r < 0.01:      # burst
                 outcomes += [rng.choice('UL') for _ in range(rng.randint(2, retries + 3))]
             elif r < 0.01 + pl:
                 outcomes.append(rng.choice('UL'))
             else:
                 outcomes.append('A')
+        if not fail_ok:       # "short of a link failure": no run of `retries` unacknowledged transmissions
+            run = 0
+            for j in range(nneg, len(outcomes)):
+                run = run + 1 if outcomes[j] != 'A' else 0
+                if run == retries:
+                    outcomes[j] = 'A'
+                    run = 0
         nup = rng.randint(5, 60 if tier == 'quick' else 200)
         ndown = rng.randint(5, 60 if tier == 'quick' else 200)
         nsend = rng.randint(1, 3)
@@ -782,6 +793,8 @@ def scenario_from_behaviour(beh):
             raise common.MachineryError('unexpected action label %r in a Safelink behaviour' % label)
         e = {k: st[k] for k in PROJ_KEYS}
         e['inQ'] = [norm(p) for p in e['inQ']]
+        if e['pc'] == 'neg':            # the start-up loop is parked at the same place (about to transmit)
+            e['pc'] = 'tx'
         expected.append(e)
         prev = st
     sc = {'mode': st0['peer']['mode'], 'tail': st0['peer']['tail'], 'deny': st0['peer']['deny'],
@@ -802,7 +815,8 @@ def judge(out, traces, label, count=True):
     for group in (short, long_):
         if not group:
             continue
-        chunk = max(1, min(1500, (len(group) + common.NCPU - 1) // common.NCPU))
+        per = (len(group) + common.NCPU - 1) // common.NCPU
+        chunk = max(1, per) if group is long_ else max(200, min(1500, per))
         v, st = common.validate_traces('SafelinkTrace.tla', 'TRACE_Safelink.cfg', group, chunk=chunk, timeout=3000)
         verdicts.update(v)
         for k in tot:
@@ -852,6 +866,27 @@ BUGS = ['flip_up_on_lost', 'dequeue_on_lost', 'no_retry_reset', 'retry_off_by_on
         'never_flip_down', 'never_needs_resending']
 
 
+def expect_temporal_violation(spec, cfg, **kw):
+    """A liveness bug configuration must be refuted (tlc.run does not know TLC's wording
+    'Temporal property X was violated', so the refutation is recognised here)."""
+    try:
+        r = tlc.run(spec, cfg, **kw)
+    except tlc.TLCError as e:
+        import re
+        m = re.search(r'Temporal property (\w+) was violated', str(e))
+        if not m:
+            raise
+        r = tlc.Result()
+        r.violated = 'temporal:' + m.group(1)
+        m2 = re.search(r'(\d+) states generated, (\d+) distinct states found', str(e))
+        if m2:
+            r.generated, r.distinct = int(m2.group(1)), int(m2.group(2))
+        return r
+    if r.ok or not r.violated:
+        raise tlc.TLCError('liveness bug configuration %s/%s was NOT refuted' % (spec, cfg))
+    return r
+
+
 def _tlc_jobs(jobs):
     """Run several TLC jobs concurrently (they are subprocesses); jobs: (key, fn, args, kwargs)."""
     from concurrent.futures import ThreadPoolExecutor
@@ -863,7 +898,7 @@ def _tlc_jobs(jobs):
     return res
 
 
-def check_blocks(out, scs, label, stats, block=6000):
+def check_blocks(out, scs, label, stats, block=16000):
     """Execute scenarios block-wise against the real code and judge them; violations recorded."""
     for b in range(0, len(scs), block):
         part = scs[b:b + block]
@@ -912,7 +947,7 @@ def main(tier, seed, replay=None):
         'the configured number, the count restarts only at an acknowledgement; configured number >= 1',
         'outcome alphabet {A, U, L}; USB failures (ack status None / exceptions) and the 2 s queue-full timeout of '
         'RadioDriver.send_packet are outside (virtual time advances only when no thread can run)',
-        '"reaches" is read as bounded: after the last submission, 2*(#accepted+#queued)+6 consecutive acknowledged '
+        '"reaches" is read as bounded: after the last submission, #accepted+#queued+4 consecutive acknowledged '
         'transmissions deliver everything',
     ]
     if replay:
@@ -933,6 +968,8 @@ def main(tier, seed, replay=None):
     if tier == 'thorough':
         jobs.append(('quick', tlc.check, ('MC_Safelink.tla', 'MC_Safelink_quick.cfg'), dict(workers=4, timeout=3000)))
         jobs.append(('live', tlc.check, ('MC_Safelink.tla', 'MC_Safelink_live.cfg'), dict(workers=4, timeout=3000)))
+        jobs.append(('bug:live_dequeue_on_lost', expect_temporal_violation,
+                     ('MC_Safelink.tla', 'MC_Safelink_bug_live_dequeue_on_lost.cfg'), dict(workers=2, timeout=1500)))
     for b in BUGS:
         jobs.append(('bug:' + b, tlc.expect_violation, ('MC_Safelink.tla', 'MC_Safelink_bug_%s.cfg' % b),
                      dict(workers=2, timeout=1500)))
@@ -980,10 +1017,9 @@ def main(tier, seed, replay=None):
 
     # 3. code -> spec: exhaustive outcome words x submission patterns, start-up enumeration, random beyond
     words = word_scenarios(tier)
-    check_blocks(out, words, 'outcome words', stats)
-    nwords = stats['traces'] - len(sim_traces)
     starts = startup_scenarios(tier, rng)
-    check_blocks(out, starts, 'start-up', stats)
+    check_blocks(out, words + starts, 'outcome words + start-up', stats)
+    nwords = len(words)
     rnd = random_scenarios(tier, rng)
     st_r = new_stats()
     check_blocks(out, rnd, 'random long runs', st_r, block=64)
@@ -1011,15 +1047,17 @@ def main(tier, seed, replay=None):
     out.extra['events'] = stats['events']
 
     # 4. sensitivity: in-memory mutants of the driver must be rejected by the monitor
-    sub = words[::max(1, len(words) // (400 if tier == 'quick' else 1500))] + starts[::max(1, len(starts) // 150)] + rnd[:4]
-    for name in sorted(MUTANTS):
-        mres = run_scenarios(sub, mutant=name)
-        mt = [r[0] for r in mres]
-        o2 = common.Outcome('C01', tier, seed)
-        mbad, _d, _n = judge(o2, mt, 'mutant ' + name, count=False)
-        clauses = sorted({c for (_i, c, _a) in mbad})
-        out.sensitivity['mutant:' + name] = '%d of %d traces rejected (%s)' % (len(mbad), len(mt), ','.join(clauses))
-        if not mbad:
+    sub = words[::max(1, len(words) // (240 if tier == 'quick' else 1500))] + starts[::max(1, len(starts) // (90 if tier == 'quick' else 300))] + rnd[:2]
+    names = sorted(MUTANTS)
+    mres = common.pmap(_exec_job, [(sc, name, False) for name in names for sc in sub], init=_init, maxtasks=400)
+    mt = [r[0] for r in mres]
+    o2 = common.Outcome('C01', tier, seed)
+    mbad, _d, _n = judge(o2, mt, 'mutants', count=False)
+    for k, name in enumerate(names):
+        mine = [(i, c) for (i, c, _a) in mbad if k * len(sub) <= i < (k + 1) * len(sub)]
+        clauses = sorted({c for (_i, c) in mine})
+        out.sensitivity['mutant:' + name] = '%d of %d traces rejected (%s)' % (len(mine), len(sub), ','.join(clauses))
+        if not mine:
             raise common.MachineryError('monitor did not reject in-memory mutant %s' % name)
     # binding self-tests: corrupted traces must be rejected
     base = next(r[0] for r in run_scenarios(words[-3:]) if any(e['e'] == 'sub' for e in r[0]['ev']))
